@@ -1099,6 +1099,13 @@ PROPERTY = Property(
         "any superposition of its own signal with a prefix of the later ones is accepted",
         "after a front end that works on samples, 'the same noise at the same absolute time' is compared between "
         "windows of equal dt and phase only",
+        "'the same absolute time' means equal floats: noisy objects are exercised on dyadic lattices (all grid "
+        "arithmetic exact); on arbitrary lattices noise values are compared only where the two float times are "
+        "equal, because pyrex's FFT thermal noise is discontinuous at its period seam (period (N-1)dt makes the "
+        "first and last sample coincide; C17's subject) and two float expressions of one lattice time can "
+        "straddle it",
+        "'differs after reset_noise' is asserted when both realisations are non-zero at >= 3 shared times (a noise "
+        "band above the Nyquist frequency of the first queried grid gives an all-zero realisation)",
         "is_hit_mc_truth is executed as a cache-perturbing read; it is decided only for plain antennas and noisy "
         "systems (documented semantics), not for noise-free systems",
     ],
